@@ -23,7 +23,10 @@
      the result is 0 (`C04_ste_absorb_counterexample`, recorded finding — the only one left);
    * since the fix round: a zero input counts as positive wherever it is not below the threshold (threshold 0),
      negative scale axes are counted from the end, exponent bounds are float powers in every numeric form,
-     numpy inputs take the tensor path everywhere (section "repaired defects" at the end).
+     numpy inputs take the tensor path everywhere (section "repaired defects" at the end);
+   * since fix round N: the order in which a list `scale_axis` names its axes (with the `elements_per_scale`
+     entries following their axes) does not matter — `_validate_axis_and_eps` sorts the pairs before the
+     shape helpers, which need ascending axes, walk through them (`C04_axes_order_irrelevant*`).
 -/
 import QKV.Lemmas.BinTer
 import QKV.Lemmas.TensorQ
@@ -898,6 +901,237 @@ theorem C04_exp_form_invariant (e : ℤ) : expOfArg (.npInt e) = expOfArg (.py e
 /-- the formerly failing input: `min_po2_exponent=np.int64(-3)` used to raise in `2**min_po2_exponent` -/
 theorem C04_exp_form_fixed_witness :
     expOfArg (.npInt (-3)) = .ok (some (-3)) ∧ expOfArg (.py (-3)) = .ok (some (-3)) := ⟨rfl, rfl⟩
+
+/-! ### the order of a `scale_axis` list is free (fix round N)
+
+  `scale_axis=[1, 0], elements_per_scale=[2, 2]` used to raise (`Incompatible shapes`) where `[0, 1]` worked,
+  and `elements_per_scale` of 1 in a non-ascending list gave a silently wrong grouping: `_get_unrolled_shape` /
+  `_get_rolled_back_shape` walk the list in the order given and shift every later axis by one per axis
+  handled, i.e. presume ascending axes.  Since the fix `_validate_axis_and_eps` hands the (axis, elements)
+  pairs over in ascending order.  The configured grouping is a SET of pairs: -/
+
+private theorem scalingAxis_perm (chLast : Bool) {l l' : List ℕ} (h : l.Perm l') (len : ℕ) :
+    scalingAxis chLast (.many l) len = scalingAxis chLast (.many l') len := by
+  simp only [scalingAxis]
+  apply List.filter_congr
+  intro i _
+  rw [Bool.eq_iff_iff]
+  simp [h.mem_iff]
+
+/-- ANY two listings of the same (axis, elements_per_scale) pairs — every permutation, for every rank, every
+    shape, both data formats, whether the configuration is accepted or rejected — give the same verdict and the
+    same producer and consumer key for every position: the same partition into scale groups -/
+theorem C04_axes_order_irrelevant (chLast : Bool) (ps qs : List (ℕ × ℕ)) (h : ps.Perm qs) (shape : List ℕ) :
+    keys ⟨chLast, .many (ps.map (·.1)), .many (ps.map (·.2))⟩ shape
+      = keys ⟨chLast, .many (qs.map (·.1)), .many (qs.map (·.2))⟩ shape := by
+  unfold keys
+  simp only [validateAxisEps_perm shape h]
+
+/-- … with ONE `elements_per_scale` for all listed axes -/
+theorem C04_axes_order_irrelevant_int_eps (chLast : Bool) (l l' : List ℕ) (h : l.Perm l') (e : ℕ)
+    (shape : List ℕ) : keys ⟨chLast, .many l, .one e⟩ shape = keys ⟨chLast, .many l', .one e⟩ shape := by
+  unfold keys
+  simp only [validateAxisEps_perm_int shape h e]
+
+/-- … and without `elements_per_scale` (this route never depended on the order: `i not in scale_axis`) -/
+theorem C04_axes_order_irrelevant_no_eps (chLast : Bool) (l l' : List ℕ) (h : l.Perm l') (shape : List ℕ) :
+    keys ⟨chLast, .many l, .none⟩ shape = keys ⟨chLast, .many l', .none⟩ shape := by
+  unfold keys
+  simp only [scalingAxis_perm chLast h]
+
+/-- the two-axis case spelled out: `scale_axis=[a, b], elements_per_scale=[ea, eb]` is
+    `scale_axis=[b, a], elements_per_scale=[eb, ea]` -/
+theorem C04_axes_order_irrelevant_swap (chLast : Bool) (a b ea eb : ℕ) (shape : List ℕ) :
+    keys ⟨chLast, .many [a, b], .many [ea, eb]⟩ shape = keys ⟨chLast, .many [b, a], .many [eb, ea]⟩ shape :=
+  C04_axes_order_irrelevant chLast [(a, ea), (b, eb)] [(b, eb), (a, ea)] (List.Perm.swap _ _ _) shape
+
+/-- reversing both lists -/
+theorem C04_axes_order_irrelevant_reverse (chLast : Bool) (ps : List (ℕ × ℕ)) (shape : List ℕ) :
+    keys ⟨chLast, .many (ps.map (·.1)).reverse, .many (ps.map (·.2)).reverse⟩ shape
+      = keys ⟨chLast, .many (ps.map (·.1)), .many (ps.map (·.2))⟩ shape := by
+  rw [← List.map_reverse, ← List.map_reverse]
+  exact C04_axes_order_irrelevant chLast ps.reverse ps (List.reverse_perm ps) shape
+
+/-- every listing is its ascending spelling (axes non-decreasing), and a strictly ascending listing is worked on
+    as it stands — nothing changed for the configurations that used to work -/
+theorem C04_axes_order_irrelevant_canonical (chLast : Bool) (ps : List (ℕ × ℕ)) (shape : List ℕ) :
+    keys ⟨chLast, .many (ps.map (·.1)), .many (ps.map (·.2))⟩ shape
+        = keys ⟨chLast, .many ((sortPairs ps).map (·.1)), .many ((sortPairs ps).map (·.2))⟩ shape ∧
+      ((sortPairs ps).map (·.1)).Pairwise (· ≤ ·) ∧
+      ((ps.map (·.1)).Pairwise (· < ·) → sortPairs ps = ps) :=
+  ⟨C04_axes_order_irrelevant chLast ps (sortPairs ps) (sortPairs_perm ps).symm shape,
+   sortPairs_axes_ascending ps, sortPairs_of_axes_ascending⟩
+
+/-- hence the scales, the codes and the outputs of `binary` (alpha "auto" / "auto_po2", any float context) do
+    not depend on the order of the listing either -/
+theorem C04_axes_order_irrelevant_binary (c : Fl) (cfg : BinCfg) (ps qs : List (ℕ × ℕ)) (h : ps.Perm qs)
+    (shape : List ℕ) (x : List ℚ) :
+    binary c { cfg with grp := ⟨cfg.grp.chLast, .many (ps.map (·.1)), .many (ps.map (·.2))⟩ } shape x
+      = binary c { cfg with grp := ⟨cfg.grp.chLast, .many (qs.map (·.1)), .many (qs.map (·.2))⟩ } shape x := by
+  simp only [binary, C04_axes_order_irrelevant cfg.grp.chLast ps qs h shape]
+
+private theorem filterMap_norm_of_inRange (len : ℕ) (l : List ℤ) (h : AxisArg.inRange len (.many l) = true) :
+    l.filterMap (fun a => if normAxis len a < 0 then Option.none else some (normAxis len a).toNat)
+      = l.map fun a => (normAxis len a).toNat := by
+  induction l with
+  | nil => rfl
+  | cons n t ih =>
+    simp only [AxisArg.inRange, List.all_cons, Bool.and_eq_true, decide_eq_true_eq] at h
+    have h0 : ¬ (normAxis len n < 0) := by omega
+    rw [List.filterMap_cons, List.map_cons]
+    simp only [h0, if_false]
+    rw [ih (by simpa [AxisArg.inRange] using h.2)]
+
+private theorem binary_congr (c : Fl) (c1 c2 : BinCfg) (shape : List ℕ) (x : List ℚ)
+    (h1 : c1.use01 = c2.use01) (h2 : c1.alpha = c2.alpha) (h3 : c1.minE = c2.minE) (h4 : c1.maxE = c2.maxE)
+    (hk : (c1.alpha = .auto ∨ c1.alpha = .autoPo2) → keys c1.grp shape = keys c2.grp shape) :
+    binary c c1 shape x = binary c c2 shape x := by
+  obtain ⟨u1, a1, g1, mn1, mx1⟩ := c1
+  obtain ⟨u2, a2, g2, mn2, mx2⟩ := c2
+  simp only at h1 h2 h3 h4 hk
+  subst h1 h2 h3 h4
+  cases a1 with
+  | none => rfl
+  | const a => rfl
+  | arr sh v => rfl
+  | auto => simp only [binary, hk (Or.inl rfl)]
+  | autoPo2 => simp only [binary, hk (Or.inr rfl)]
+
+/-- the axes a call works with, for two listings of the same pairs -/
+private theorem axis_perm (a : BinAttrs) (ps qs : List (ℤ × ℕ)) (h : ps.Perm qs) (al : Alpha) (chLast : Bool)
+    (shape : List ℕ) :
+    match ({ a with sa := .many (ps.map (·.1)), eps := .many (ps.map (·.2)) } : BinAttrs).axis al shape.length,
+          ({ a with sa := .many (qs.map (·.1)), eps := .many (qs.map (·.2)) } : BinAttrs).axis al shape.length with
+    | .error e1, .error e2 => e1 = e2
+    | .ok s1, .ok s2 => (al = .auto ∨ al = .autoPo2) →
+        keys ⟨chLast, s1, .many (ps.map (·.2))⟩ shape = keys ⟨chLast, s2, .many (qs.map (·.2))⟩ shape
+    | _, _ => False := by
+  by_cases hr : shape.length ≤ 1
+  · -- rank ≤ 1: no grouping at all
+    have hk : ∀ g g' : Grp, keys g shape = keys g' shape := by
+      intro g g'; unfold keys; simp only [hr, if_true]
+    cases al <;> simp only [BinAttrs.axis, hr, if_true] <;> intro _ <;> exact hk _ _
+  · have hin : AxisArg.inRange shape.length (.many (ps.map (·.1))) = AxisArg.inRange shape.length (.many (qs.map (·.1))) := by
+      simp only [AxisArg.inRange]; exact (h.map _).all_eq
+    have main : (match (if AxisArg.inRange shape.length (.many (ps.map (·.1))) then
+                    (Except.ok (AxisSpec.many ((ps.map (·.1)).filterMap fun a => if normAxis shape.length a < 0 then Option.none else some (normAxis shape.length a).toNat)) : Except Err AxisSpec)
+                  else .error .assert),
+                 (if AxisArg.inRange shape.length (.many (qs.map (·.1))) then
+                    (Except.ok (AxisSpec.many ((qs.map (·.1)).filterMap fun a => if normAxis shape.length a < 0 then Option.none else some (normAxis shape.length a).toNat)) : Except Err AxisSpec)
+                  else .error .assert) with
+        | .error e1, .error e2 => e1 = e2
+        | .ok s1, .ok s2 => keys ⟨chLast, s1, .many (ps.map (·.2))⟩ shape = keys ⟨chLast, s2, .many (qs.map (·.2))⟩ shape
+        | _, _ => False) := by
+      rw [← hin]
+      by_cases hi : AxisArg.inRange shape.length (.many (ps.map (·.1))) = true
+      · have hi' := hi; rw [hin] at hi'
+        rw [if_pos hi, if_pos hi, filterMap_norm_of_inRange _ _ hi, filterMap_norm_of_inRange _ _ hi']
+        simp only
+        let f : ℤ × ℕ → ℕ × ℕ := fun p => ((normAxis shape.length p.1).toNat, p.2)
+        have e1 : ∀ l : List (ℤ × ℕ), (l.map (·.1)).map (fun a => (normAxis shape.length a).toNat) = (l.map f).map (·.1) := by
+          intro l; simp [f, List.map_map, Function.comp_def]
+        have e2 : ∀ l : List (ℤ × ℕ), l.map (·.2) = (l.map f).map (·.2) := by
+          intro l; simp [f, List.map_map, Function.comp_def]
+        rw [e1 ps, e1 qs, e2 ps, e2 qs]
+        exact C04_axes_order_irrelevant chLast _ _ (h.map f) shape
+      · rw [if_neg hi, if_neg hi]
+    cases al with
+    | none => simp [BinAttrs.axis]
+    | const v => simp [BinAttrs.axis]
+    | arr sh v => simp [BinAttrs.axis]
+    | auto =>
+      simp only [BinAttrs.axis, hr, if_false, axisOfArg]
+      revert main
+      generalize (if AxisArg.inRange shape.length (AxisArg.many (List.map (fun x => x.1) ps)) = true then _ else _ : Except Err AxisSpec) = r1
+      generalize (if AxisArg.inRange shape.length (AxisArg.many (List.map (fun x => x.1) qs)) = true then _ else _ : Except Err AxisSpec) = r2
+      intro main
+      cases r1 <;> cases r2 <;> simp_all
+    | autoPo2 =>
+      simp only [BinAttrs.axis, hr, if_false, axisOfArg]
+      revert main
+      generalize (if AxisArg.inRange shape.length (AxisArg.many (List.map (fun x => x.1) ps)) = true then _ else _ : Except Err AxisSpec) = r1
+      generalize (if AxisArg.inRange shape.length (AxisArg.many (List.map (fun x => x.1) qs)) = true then _ else _ : Except Err AxisSpec) = r2
+      intro main
+      cases r1 <;> cases r2 <;> simp_all
+
+private theorem cfg_perm (c : Fl) (env : Env) (a : BinAttrs) (ps qs : List (ℤ × ℕ)) (h : ps.Perm qs)
+    (shape : List ℕ) (x : List ℚ) :
+    match ({ a with sa := .many (ps.map (·.1)), eps := .many (ps.map (·.2)) } : BinAttrs).cfg env shape.length,
+          ({ a with sa := .many (qs.map (·.1)), eps := .many (qs.map (·.2)) } : BinAttrs).cfg env shape.length with
+    | .error e1, .error e2 => e1 = e2
+    | .ok c1, .ok c2 => binary c c1 shape x = binary c c2 shape x
+    | _, _ => False := by
+  unfold BinAttrs.cfg
+  simp only
+  cases ha : alphaOfArg a.alpha with
+  | error e => simp
+  | ok al =>
+    simp only
+    have hax := axis_perm a ps qs h al env.chLast shape
+    cases h1 : ({ a with sa := .many (ps.map (·.1)), eps := .many (ps.map (·.2)) } : BinAttrs).axis al shape.length <;>
+    cases h2 : ({ a with sa := .many (qs.map (·.1)), eps := .many (qs.map (·.2)) } : BinAttrs).axis al shape.length <;>
+    rw [h1, h2] at hax <;> simp only at hax ⊢
+    · exact hax
+    · cases al with
+      | autoPo2 =>
+        cases expOfArg a.minE <;> cases expOfArg a.maxE <;> simp only
+        exact binary_congr c _ _ shape x rfl rfl rfl rfl (fun _ => hax (Or.inr rfl))
+      | auto => exact binary_congr c _ _ shape x rfl rfl rfl rfl (fun _ => hax (Or.inl rfl))
+      | none => exact binary_congr c _ _ shape x rfl rfl rfl rfl (fun hh => by simp at hh)
+      | const v => exact binary_congr c _ _ shape x rfl rfl rfl rfl (fun hh => by simp at hh)
+      | arr sh v => exact binary_congr c _ _ shape x rfl rfl rfl rfl (fun hh => by simp at hh)
+
+/-- … on the live object, with the axes as Python hands them over (negative axes counted from the end,
+    `[-1, 0]`, `[-1, -2]`, mixed signs): for ANY attributes, data format, rank, shape, input and float context,
+    two objects whose `scale_axis` / `elements_per_scale` lists are two listings of the same pairs return the
+    same result (outputs, codes, scales — or the same rejection) and leave the same `q.scale` -/
+theorem C04_axes_order_irrelevant_call (c : Fl) (env : Env) (a : BinAttrs) (ps qs : List (ℤ × ℕ)) (h : ps.Perm qs)
+    (shape : List ℕ) (x : List ℚ) :
+    let o1 := BinObj.new { a with sa := .many (ps.map (·.1)), eps := .many (ps.map (·.2)) }
+    let o2 := BinObj.new { a with sa := .many (qs.map (·.1)), eps := .many (qs.map (·.2)) }
+    (o1.call c env shape x).1 = (o2.call c env shape x).1 ∧
+      (o1.call c env shape x).2.scale = (o2.call c env shape x).2.scale := by
+  intro o1 o2
+  have hc := cfg_perm c env a ps qs h shape x
+  simp only [BinObj.call, o1, o2, BinObj.new]
+  revert hc
+  cases ({ a with sa := .many (ps.map (·.1)), eps := .many (ps.map (·.2)) } : BinAttrs).cfg env shape.length <;>
+  cases ({ a with sa := .many (qs.map (·.1)), eps := .many (qs.map (·.2)) } : BinAttrs).cfg env shape.length <;>
+  simp only <;> intro hc
+  · exact ⟨by rw [hc], trivial⟩
+  · exact hc.elim
+  · exact hc.elim
+  · rw [hc]
+    split <;> simp
+
+/-- the formerly failing input `binary(alpha="auto", scale_axis=[1, 0], elements_per_scale=[2, 2])` on a 4×4
+    tensor: accepted, producer key = consumer key, the groups are the 2×2 blocks, exactly as for `[0, 1]`;
+    `[1, 0]` with `[4, 2]` is `[0, 1]` with `[2, 4]`; the scales of a block-constant tensor are the block
+    magnitudes (÷ (1+ε)); on the live object `[-1, 0]` / `[-1, -2]` with `[4, 2]` are `[0, 1]` with `[2, 4]` (two
+    scales, one per pair of rows).  Last line: the walk in the order LISTED, which the code used to take — shape
+    `[4,1,2,2]` with both unrolled axes at 1: not the blocks (hence `Incompatible shapes` on roll-back) -/
+theorem C04_axes_order_irrelevant_fixed_witness :
+    (match keys ⟨true, .many [1, 0], .many [2, 2]⟩ [4, 4], keys ⟨true, .many [0, 1], .many [2, 2]⟩ [4, 4] with
+      | .ok (pk, ck), .ok (pk', ck') =>
+        pk == ck && pk == pk' && ck == ck' && pk == (List.range 16).map (fun i => [i / 4 / 2, 0, i % 4 / 2, 0])
+      | _, _ => false) = true ∧
+    validateAxisEps [4, 4] (.many [1, 0]) (.many [4, 2]) = .ok ([0, 1], [2, 4], false) ∧
+    (match binary (Fl.exact (1/10000000)) ⟨false, .auto, ⟨true, .many [1, 0], .many [2, 2]⟩, none, none⟩ [4, 4]
+        [1, -1, 2, 2, 1, 1, -2, 2, 3, 3, 4, -4, -3, 3, 4, 4] with
+      | .ok es => es.map (·.scale) == [1, 1, 2, 2, 1, 1, 2, 2, 3, 3, 4, 4, 3, 3, 4, 4].map (· / (1 + 1/10000000))
+      | .error _ => false) = true ∧
+    (let x : List ℚ := [1, -1, 2, 2, 1, 1, -2, 2, 3, 3, 4, -4, -3, 3, 4, 4]
+     let o (sa : List ℤ) (eps : List ℕ) := BinObj.new ⟨false, .str "auto", .many sa, .many eps, .none, .none⟩
+     match ((o [-1, 0] [4, 2]).call (Fl.exact (1/10000000)) ⟨true⟩ [4, 4] x).1,
+           ((o [0, 1] [2, 4]).call (Fl.exact (1/10000000)) ⟨true⟩ [4, 4] x).1,
+           ((o [-1, -2] [4, 2]).call (Fl.exact (1/10000000)) ⟨true⟩ [4, 4] x).1 with
+      | .ok es, .ok es', .ok es'' =>
+        es.map (·.scale) == es'.map (·.scale) && es''.map (·.scale) == es'.map (·.scale) &&
+          es.map (·.scale) == ([3/2, 3/2, 3/2, 3/2, 3/2, 3/2, 3/2, 3/2, 7/2, 7/2, 7/2, 7/2, 7/2, 7/2, 7/2, 7/2] : List ℚ).map
+            (· / (1 + 1/10000000))
+      | _, _, _ => false) = true ∧
+    unrolledShape [4, 4] [1, 0] [2, 2] = ([4, 1, 2, 2], [1, 1]) := by
+  refine ⟨by decide +kernel, by decide +kernel, by decide +kernel, by decide +kernel, by decide +kernel⟩
 
 /-! ### non-vacuity -/
 
